@@ -177,6 +177,12 @@ func c19Run(t *testing.T, s *sim.Scn) *sim.Outcome {
 			field = "/field=" + c19Field(img, int(op.A)%len(img))
 		}
 	}
+	mustLoad := !wrong
+	for _, op := range s.Ops {
+		if op.K == "trunc" || op.K == "flip" || op.K == "set" {
+			mustLoad = false
+		}
+	}
 	verify := func(dir string, p []byte, what string) bool {
 		var sg interface {
 			Sign([]byte) ([]byte, error)
@@ -201,11 +207,20 @@ func c19Run(t *testing.T, s *sim.Scn) *sim.Outcome {
 		}
 		if lerr != nil {
 			o.Count("load-refused", 1)
+			if mustLoad {
+				o.Fail("C19/undamaged-file-does-not-load", fmt.Sprintf("C19/undamaged-file-does-not-load/pass=%d/fmt=%d", passClass%4, format%2), 0,
+					fmt.Sprintf("%s (passphrase class %d, %d bytes; format %d): Load with the right passphrase fails: %v", what, passClass%4, len(p), format%2, lerr), "a key saved under a passphrase loads with that passphrase")
+				return false
+			}
 			return true
 		}
 		o.Count("load-succeeded", 1)
 		if wrong {
-			o.Fail("C19/wrong-passphrase-loads", "", 0, what+": a signer was returned", "a wrong passphrase never yields a usable signer")
+			sig := "C19/wrong-passphrase-loads"
+			if format%2 == 1 && len(pass) >= 32 && len(p) >= 32 && bytes.Equal(p[:32], pass[:32]) {
+				sig += "/legacy-format/same-first-32-bytes"
+			}
+			o.Fail("C19/wrong-passphrase-loads", sig, 0, fmt.Sprintf("%s (%d bytes instead of %d, format %d): a signer was returned", what, len(p), len(pass), format%2), "a wrong passphrase never yields a usable signer")
 			return false
 		}
 		pub, err := sg.GetPublic()
@@ -252,6 +267,7 @@ func c19Run(t *testing.T, s *sim.Scn) *sim.Outcome {
 			return o
 		}
 		wrong = false
+		mustLoad = true
 		before := o.Counters["load-succeeded"]
 		if !verify(dir2, p2, "export -> import -> load") {
 			return o
@@ -291,17 +307,19 @@ func c19Enumerate(tier string, run func(*sim.Scn) *sim.Outcome) string {
 	total := 0
 	for pass := int64(0); pass < 4; pass++ {
 		for format := int64(0); format < 2; format++ {
-			if tier != "thorough" && !((pass == 1 && format == 0) || (pass == 0 && format == 0) || (pass == 1 && format == 1)) {
-				continue // quick: short passphrase in both formats, and the empty passphrase
-			}
 			img, err := c19Image(pass, format)
 			if err != nil {
 				panic(fmt.Sprintf("INFRA: %v", err))
 			}
 			cfg := func() map[string]int64 { return map[string]int64{"pass": pass, "fmt": format} }
+			// every variant: the undamaged file loads with its passphrase (and round-trips through export/import),
+			// and with no other passphrase
 			scns = append(scns, &sim.Scn{Cfg: cfg(), Ops: []sim.Op{{K: "export"}}})
 			for w := int64(0); w < 4; w++ {
 				scns = append(scns, &sim.Scn{Cfg: cfg(), Ops: []sim.Op{{K: "wrongpass", A: w}}})
+			}
+			if tier != "thorough" && !((pass == 1 && format == 0) || (pass == 0 && format == 0) || (pass == 1 && format == 1)) {
+				continue // quick: faults are enumerated for the short passphrase in both formats and the empty passphrase
 			}
 			step := 1
 			if tier != "thorough" && !(pass == 1 && format == 0) {
